@@ -143,7 +143,7 @@ def _replay(chunk, arg):
     viol, n, nontriv = [], 0, set()
     for raw in chunk:
         case = tlc.decode(raw) if isinstance(raw, str) else raw
-        viol.extend(check_case(W, case))
+        viol.extend(core.safe(check_case, case, W, case))
         n += 4 * len(case["pats"]) + len(case["multi"])
         for pc in case["pats"]:
             if pc["res"]["ok"] and pc["p"]["fields"]:
